@@ -95,9 +95,17 @@ func (c *Catalog) tagsFromTagsDirective(d *directive.Directive) ([]*Tag, *jerr.J
 	}
 
 	tt := make([]*Tag, 0, d.UnnamedParametersLen())
+	seen := make(map[TagName]struct{}, d.UnnamedParametersLen())
 
 	for _, name := range d.UnnamedParameter() {
 		tn := TagName(name)
+
+		// A tag name can be repeated in the directive, but the interaction should
+		// be added to the tag only once.
+		if _, ok := seen[tn]; ok {
+			continue
+		}
+		seen[tn] = struct{}{}
 
 		t, ok := c.Tags.Get(tn)
 		if !ok {
